@@ -62,6 +62,25 @@ func genGroupCase(t *rapid.T, withID bool) groupCase {
 	} else {
 		base = hx.GenTable(t, hx.TableOpt{MinCols: 1, MaxCols: 6, AllowDerived: true})
 	}
+	// many key columns: 9-11 nearly constant columns in front of the drawn ones, all of them keys, so that rows differ
+	// in late key columns only
+	wide := !filled && rapid.IntRange(0, 11).Draw(t, "widekeys") == 0
+	var wideKeys []string
+	if wide {
+		nw := rapid.IntRange(9, 11).Draw(t, "nwide")
+		var cols []hx.Col
+		for j := 0; j < nw; j++ {
+			c := hx.Col{Name: fmt.Sprintf("w%d", j), Kind: hx.KInt, I: make([]int, base.N())}
+			for r := range c.I {
+				if rapid.IntRange(0, 15).Draw(t, "wcell") == 0 {
+					c.I[r] = 1
+				}
+			}
+			cols = append(cols, c)
+			wideKeys = append(wideKeys, c.Name)
+		}
+		base = hx.Table{Cols: append(cols, base.Cols...)}
+	}
 	if withID {
 		base = withIDLast(base)
 	}
@@ -82,6 +101,20 @@ func genGroupCase(t *rapid.T, withID bool) groupCase {
 		nk = len(cands)
 	}
 	perm := rapid.Permutation(cands).Draw(t, "keyperm")
+	if wide {
+		// all the nearly constant columns first, then some of the others
+		var rest []string
+		for _, c := range perm {
+			if !strings.HasPrefix(c, "w") {
+				rest = append(rest, c)
+			}
+		}
+		if nk > len(rest) {
+			nk = len(rest)
+		}
+		perm = append(append([]string(nil), wideKeys...), rest[:nk]...)
+		nk = len(perm)
+	}
 	return groupCase{d: d, in: in, keys: append([]string(nil), perm[:nk]...), groupNull: rapid.Bool().Draw(t, "groupnull"), filled: filled,
 		optForm: rapid.IntRange(0, 3).Draw(t, "optform")}
 }
@@ -138,9 +171,6 @@ func genAggs(t *rapid.T, in hx.Table, keys []string) []hx.Agg {
 	for i := 0; i < n; i++ {
 		c := in.Cols[rapid.IntRange(0, len(in.Cols)-1).Draw(t, "aggcol")]
 		a := hx.Agg{Col: c.Name, Fn: rapid.SampledFrom(hx.AggsFor(c.Kind)).Draw(t, "aggfn")}
-		if c.Kind == hx.KFloat && (a.Fn == "min" || a.Fn == "max") && c.HasNull() {
-			a.Fn = "sum" // min/max over NaN is not specified
-		}
 		if used[c.Name] || rapid.IntRange(0, 2).Draw(t, "as") == 0 {
 			a.As = fmt.Sprintf("agg%d", i)
 		}
@@ -258,14 +288,46 @@ func TestC04(t *testing.T) {
 			if res.Len() != len(groups) {
 				t.Fatalf("Aggregate has %d rows, model has %d groups\n%s\nresult %s", res.Len(), len(groups), desc(), got.String())
 			}
+			// float min/max of a group that holds a NaN: the statement does not say whether NaN wins, so NaN and the
+			// extremum of the other values are both accepted (token "NaN-or-extremum") - but see the arrangement
+			// check below: whichever it is, it must not depend on where in the group the NaN stands
+			nanExt := func(i int) bool {
+				src := in.MustCol(aggs[i].Col)
+				return src.Kind == hx.KFloat && (aggs[i].Fn == "min" || aggs[i].Fn == "max") && src.HasNull()
+			}
+			allowed := map[string][]map[string]bool{}
 			wantRows := make([]string, len(groups))
 			for gi, rows := range groups {
 				var sb strings.Builder
 				for _, k := range g.keys {
 					sb.WriteString(canonKeyCell(in.MustCol(k), rows[0]) + "|")
 				}
+				ks := sb.String()
 				for i, a := range aggs {
-					sb.WriteString(canonAggCell(outs[i], gi, a.Fn) + "|")
+					cell := canonAggCell(outs[i], gi, a.Fn)
+					if nanExt(i) && math.IsNaN(outs[i].F[gi]) {
+						if allowed[ks] == nil {
+							allowed[ks] = make([]map[string]bool, len(aggs))
+						}
+						if allowed[ks][i] == nil {
+							allowed[ks][i] = map[string]bool{}
+						}
+						allowed[ks][i][cell] = true
+						src := in.MustCol(a.Col)
+						ext, have := 0.0, false
+						for _, r := range rows {
+							if v := src.F[r]; !math.IsNaN(v) {
+								if !have || (a.Fn == "min" && v < ext) || (a.Fn == "max" && v > ext) {
+									ext, have = v, true
+								}
+							}
+						}
+						if have {
+							allowed[ks][i][canonAggCell(hx.Col{Kind: hx.KFloat, F: []float64{ext}}, 0, a.Fn)] = true
+						}
+						cell = "NaN-or-extremum"
+					}
+					sb.WriteString(cell + "|")
 				}
 				wantRows[gi] = sb.String()
 			}
@@ -275,10 +337,42 @@ func TestC04(t *testing.T) {
 				for ki := range g.keys {
 					sb.WriteString(canonKeyCell(got.Cols[ki], r) + "|")
 				}
+				ks := sb.String()
 				for i, a := range aggs {
-					sb.WriteString(canonAggCell(got.Cols[len(g.keys)+i], r, a.Fn) + "|")
+					cell := canonAggCell(got.Cols[len(g.keys)+i], r, a.Fn)
+					if nanExt(i) && allowed[ks] != nil && allowed[ks][i][cell] {
+						cell = "NaN-or-extremum"
+					}
+					sb.WriteString(cell + "|")
 				}
 				gotRows[r] = sb.String()
+			}
+			// arrangement check for those aggregations: NaNs first in every group against NaNs last
+			for i, a := range aggs {
+				if !nanExt(i) {
+					continue
+				}
+				var sides [2][]string
+				for side, nullLast := range []bool{false, true} {
+					arranged := g.d.QF.Sort(qframe.Order{Column: a.Col, NullLast: nullLast})
+					r := arranged.GroupBy(g.confFns()...).Aggregate(realAggs[i])
+					ro, err := hx.Observe(r)
+					if err != nil || r.Err != nil {
+						t.Fatalf("Aggregate of the re-arranged frame: %v %v\n%s", r.Err, err, desc())
+					}
+					for row := 0; row < ro.N(); row++ {
+						var sb strings.Builder
+						for ki := range g.keys {
+							sb.WriteString(canonKeyCell(ro.Cols[ki], row) + "|")
+						}
+						sb.WriteString(canonAggCell(ro.Cols[len(g.keys)], row, a.Fn))
+						sides[side] = append(sides[side], sb.String())
+					}
+					sort.Strings(sides[side])
+				}
+				if fmt.Sprint(sides[0]) != fmt.Sprint(sides[1]) {
+					t.Fatalf("%s(%s) depends on where in its group a NaN stands: with NaNs first %v, with NaNs last %v\n%s", a.Fn, a.Col, sides[0], sides[1], desc())
+				}
 			}
 			sort.Strings(wantRows)
 			sort.Strings(gotRows)
